@@ -411,4 +411,610 @@ theorem coeff0_rotate_rotate (F : List Vec) (hF : InRange F) (n : Nat) (hlen : F
   simp
   omega
 
+theorem bitLen_pow_sub_one (m : Nat) (hm : 1 ≤ m) : bitLen (2 ^ m - 1) = m := by
+  unfold bitLen
+  have h1 : 2 ^ m - 1 ≠ 0 := by
+    have : 2 ≤ 2 ^ m := by
+      calc 2 = 2 ^ 1 := by norm_num
+        _ ≤ 2 ^ m := Nat.pow_le_pow_right (by norm_num) hm
+    omega
+  rw [if_neg h1]
+  have : Nat.log2 (2 ^ m - 1) = m - 1 := by
+    rw [Nat.log2_eq_iff h1]
+    have e : 2 ^ m = 2 * 2 ^ (m - 1) := by
+      have : m = (m - 1) + 1 := by omega
+      conv => lhs; rw [this, pow_succ]
+      ring
+    have hp : 0 < 2 ^ (m - 1) := by positivity
+    have : m - 1 + 1 = m := by omega
+    rw [this]
+    constructor <;> omega
+  rw [this]; omega
+
+/-- Horner value of the first `j+1` digits: `Σ_{i≤j} d_i · 2^{b(j-i)}` -/
+def hv (b : Nat) (ds : Nat → Int) : Nat → Int
+  | 0 => ds 0
+  | j + 1 => hv b ds j * 2 ^ b + ds (j + 1)
+
+/-- the scalar recursion of `mod_switch_2n`'s limb loop (one coefficient) -/
+def msRec (b rem size : Nat) (ds : Nat → Int) : Nat → Int
+  | 0 => ds 0
+  | j + 1 =>
+    if j + 1 = size - 1 ∧ rem ≠ b then w64 (w64 (msRec b rem size ds j * 2 ^ (b - rem)) + divRoundByPow2 (ds (j + 1)) rem)
+    else w64 (w64 (msRec b rem size ds j * 2 ^ b) + ds (j + 1))
+
+theorem hv_bound (b : Nat) (hb : 1 ≤ b) (ds : Nat → Int) (hd : ∀ i, -(2:Int) ^ (b - 1) ≤ ds i ∧ ds i ≤ 2 ^ (b - 1)) :
+    ∀ j, -((2:Int) ^ (b * (j + 1)) - 1) ≤ hv b ds j ∧ hv b ds j ≤ 2 ^ (b * (j + 1)) - 1 := by
+  have e : (2:Int) ^ b = 2 * 2 ^ (b - 1) := by
+    have : b = (b - 1) + 1 := by omega
+    conv => lhs; rw [this, pow_succ]
+    ring
+  have hp : (0:Int) < 2 ^ (b - 1) := by positivity
+  intro j
+  induction j with
+  | zero =>
+    have := hd 0
+    simp only [hv, Nat.zero_add, Nat.mul_one]
+    rw [e]; constructor <;> omega
+  | succ j ih =>
+    have h1 := hd (j + 1)
+    simp only [hv]
+    have e2 : (2:Int) ^ (b * (j + 1 + 1)) = 2 ^ (b * (j + 1)) * 2 ^ b := by
+      rw [← pow_add]; congr 1
+    rw [e2]
+    have hP : (0:Int) < 2 ^ (b * (j + 1)) := by positivity
+    generalize (2:Int) ^ (b * (j + 1)) = P at *
+    generalize hv b ds j = H at *
+    rw [e]
+    generalize (2:Int) ^ (b - 1) = Q at *
+    constructor <;> nlinarith
+
+theorem w64_id (x : Int) (h1 : -(2:Int)^63 ≤ x) (h2 : x < 2^63) : w64 x = x := by unfold w64; omega
+
+theorem msRec_full (b rem size : Nat) (hb : 1 ≤ b) (ds : Nat → Int)
+    (hd : ∀ i, -(2:Int) ^ (b - 1) ≤ ds i ∧ ds i ≤ 2 ^ (b - 1)) :
+    ∀ j, (j < size - 1 ∨ rem = b) → b * (j + 1) ≤ 62 → msRec b rem size ds j = hv b ds j := by
+  intro j
+  induction j with
+  | zero => intro _ _; rfl
+  | succ j ih =>
+    intro hc hov
+    have hc' : j < size - 1 ∨ rem = b := by omega
+    have ihj := ih hc' (by have : b * (j + 1) ≤ b * (j + 1 + 1) := Nat.mul_le_mul_left b (by omega); omega)
+    have hcond : ¬ (j + 1 = size - 1 ∧ rem ≠ b) := by omega
+    simp only [msRec, hcond, if_false, ihj, hv]
+    have hbnd := hv_bound b hb ds hd j
+    have hbnd1 := hv_bound b hb ds hd (j + 1)
+    simp only [hv] at hbnd1
+    have hd1 := hd (j + 1)
+    have hle : (2:Int) ^ (b * (j + 1 + 1)) ≤ 2 ^ 62 := pow_le_pow_right₀ (by norm_num) hov
+    have e : (2:Int) ^ b = 2 * 2 ^ (b - 1) := by
+      have : b = (b - 1) + 1 := by omega
+      conv => lhs; rw [this, pow_succ]
+      ring
+    have hq : (0:Int) < 2 ^ (b - 1) := by positivity
+    have hbb : b ≤ b * (j + 1 + 1) := Nat.le_mul_of_pos_right b (by omega)
+    have hq2 : (2:Int) ^ (b - 1) ≤ 2 ^ 61 := pow_le_pow_right₀ (by norm_num) (by omega)
+    have hinner : w64 (hv b ds j * 2 ^ b) = hv b ds j * 2 ^ b := by
+      apply w64_id <;> nlinarith
+    rw [hinner]
+    apply w64_id <;> nlinarith
+
+/-- the body of the limb loop, as in `modSwitch2n` -/
+def msStep (b rem size : Nat) (limbs : List (List Int)) (sgn : Int → Int) (y : List Int) (i' : Nat) : List Int :=
+  let i := i' + 1
+  let xi := (limbs.getD i []).map sgn
+  if i = size - 1 ∧ rem ≠ b then
+    let kRem := b - rem
+    List.zipWith (fun x y => w64 (w64 (y * 2 ^ kRem) + divRoundByPow2 x rem)) xi y
+  else
+    List.zipWith (fun x y => w64 (w64 (y * 2 ^ b) + x)) xi y
+
+theorem msFold_singleton (b rem size : Nat) (xs : List Int) (sgn : Int → Int) :
+    ∀ j, j < xs.length →
+      (List.range j).foldl (msStep b rem size (xs.map fun x => [x]) sgn) [sgn (xs.getD 0 0)] =
+        [msRec b rem size (fun i => sgn (xs.getD i 0)) j] := by
+  intro j
+  induction j with
+  | zero => intro _; rfl
+  | succ j ih =>
+    intro hj
+    rw [List.range_succ, List.foldl_append, ih (by omega)]
+    simp only [List.foldl_cons, List.foldl_nil, msStep, msRec]
+    have hget : (List.map (fun x => [x]) xs).getD (j + 1) [] = [xs.getD (j + 1) 0] := by
+      simp [List.getD, List.getElem?_map, List.getElem?_eq_getElem hj]
+    rw [hget]
+    split <;> simp
+
+
+theorem ms_last (H d : Int) (b r q : Nat) (hbrq : b = r + q) (hq1 : 1 ≤ q) (hb60 : b ≤ 61)
+    (hd : -(2:Int) ^ (b - 1) ≤ d ∧ d ≤ 2 ^ (b - 1))
+    (hH : -(2:Int) ^ 62 ≤ H * 2 ^ b ∧ H * 2 ^ b ≤ 2 ^ 62) :
+    w64 (w64 (H * 2 ^ r) + divRoundByPow2 d q) = (H * 2 ^ b + d + 2 ^ (q - 1)) / 2 ^ q := by
+  have hsplit : (2:Int) ^ b = 2 ^ r * 2 ^ q := by rw [← pow_add, hbrq]
+  have hr0 : (0:Int) < 2 ^ r := by positivity
+  have hq0 : (0:Int) < 2 ^ q := by positivity
+  have hb1 : 1 ≤ b := by omega
+  have hqh : (2:Int) ^ q = 2 * 2 ^ (q - 1) := by
+    have : q = (q - 1) + 1 := by omega
+    conv => lhs; rw [this, pow_succ]
+    ring
+  have hqh0 : (0:Int) < 2 ^ (q - 1) := by positivity
+  have hqle : (2:Int) ^ (q - 1) ≤ 2 ^ (b - 1) := pow_le_pow_right₀ (by norm_num) (by omega)
+  have hble : (2:Int) ^ (b - 1) ≤ 2 ^ 60 := pow_le_pow_right₀ (by norm_num) (by omega)
+  have hdr : divRoundByPow2 d q = (d + 2 ^ (q - 1)) / 2 ^ q := by
+    unfold divRoundByPow2
+    rw [w64_id] <;> omega
+  rw [hdr]
+  have hval : (H * 2 ^ b + d + 2 ^ (q - 1)) / 2 ^ q = H * 2 ^ r + (d + 2 ^ (q - 1)) / 2 ^ q := by
+    rw [hsplit]
+    have : H * (2 ^ r * 2 ^ q) + d + 2 ^ (q - 1) = (d + 2 ^ (q - 1)) + (H * 2 ^ r) * 2 ^ q := by ring
+    rw [this, Int.add_mul_ediv_right _ _ (ne_of_gt hq0)]
+    ring
+  rw [hval]
+  have hdiv_lo : -(2:Int) ^ (b - 1) ≤ (d + 2 ^ (q - 1)) / 2 ^ q := by
+    apply Int.le_ediv_of_mul_le hq0
+    have : -(2:Int) ^ (b - 1) * 2 ^ q ≤ -(2:Int) ^ (b - 1) := by nlinarith
+    omega
+  have hdiv_hi : (d + 2 ^ (q - 1)) / 2 ^ q ≤ 2 ^ (b - 1) := by
+    apply Int.ediv_le_of_le_mul hq0
+    have : (2:Int) ^ (b - 1) * 2 ≤ 2 ^ (b - 1) * 2 ^ q := by nlinarith
+    nlinarith
+  have hHr : -(2:Int) ^ 62 ≤ H * 2 ^ r ∧ H * 2 ^ r ≤ 2 ^ 62 := by
+    have hrb : (2:Int) ^ r ≤ 2 ^ b := pow_le_pow_right₀ (by norm_num) (by omega)
+    rcases le_or_gt 0 H with h | h
+    · constructor <;> nlinarith
+    · constructor <;> nlinarith
+  rw [w64_id (H * 2 ^ r) (by omega) (by omega)]
+  apply w64_id <;> omega
+
+
+theorem getD_bounded (xs : List Int) (B : Int) (hB : 0 ≤ B) (hx : ∀ x ∈ xs, -B ≤ x ∧ x ≤ B) (i : Nat) :
+    -B ≤ xs.getD i 0 ∧ xs.getD i 0 ≤ B := by
+  rw [List.getD_eq_getElem?_getD]
+  cases hgi : xs[i]? with
+  | none => simp only [Option.getD_none]; constructor <;> omega
+  | some v => simp only [Option.getD_some]; exact hx v (List.mem_of_getElem? hgi)
+
+
+/-- the degree-`n·ext` polynomial an extended table stands for: coefficient `x·ext + i` is coefficient `x` of
+polynomial `i` -/
+def interleave (n : Nat) (L : List (List Vec)) : List Vec :=
+  (List.range (n * L.length)).map fun y => ((L[y % L.length]?).getD [])[y / L.length]?.getD []
+
+theorem interleave_length (n : Nat) (L : List (List Vec)) : (interleave n L).length = n * L.length := by
+  simp [interleave]
+
+theorem interleave_get (n : Nat) (L : List (List Vec)) (a j : Nat) (ha : a < n) (hj : j < L.length) :
+    (interleave n L)[a * L.length + j]? = some (((L[j]?).getD [])[a]?.getD []) := by
+  have hlt : a * L.length + j < n * L.length := by
+    have : (a + 1) * L.length ≤ n * L.length := Nat.mul_le_mul_right _ (by omega)
+    rw [Nat.succ_mul] at this; omega
+  unfold interleave
+  rw [List.getElem?_map, List.getElem?_range hlt]
+  simp only [Option.map_some]
+  have h1 : (a * L.length + j) % L.length = j := by
+    rw [Nat.mul_comm, Nat.mul_add_mod]; exact Nat.mod_eq_of_lt hj
+  have h2 : (a * L.length + j) / L.length = a := by
+    rw [Nat.mul_comm, Nat.mul_add_div (by omega), Nat.div_eq_of_lt hj]; rfl
+  rw [h1, h2]
+
+/-- `(A·e + j) mod (M·e) = (A mod M)·e + j` for `0 ≤ j < e` -/
+theorem mul_add_emod (A : Int) (M e j : Nat) (hM : 0 < M) (he : 0 < e) (hj : j < e) :
+    (A * (e : Int) + (j : Int)) % ((M : Int) * (e : Int)) = (A % (M : Int)) * (e : Int) + (j : Int) := by
+  have hMe : (0:Int) < (M : Int) * (e : Int) := by positivity
+  have h0 := Int.emod_nonneg A (show (M : Int) ≠ 0 by omega)
+  have h1 := Int.emod_lt_of_pos A (show (0 : Int) < (M : Int) by omega)
+  have hdecomp : A * (e : Int) + (j : Int) = ((A % (M : Int)) * (e : Int) + (j : Int)) + ((M : Int) * (e : Int)) * (A / (M : Int)) := by
+    have := Int.emod_add_mul_ediv A (M : Int)
+    nlinarith
+  rw [hdecomp, Int.add_mul_emod_self_left]
+  apply Int.emod_eq_of_lt
+  · nlinarith
+  · have : (A % (M : Int) + 1) * (e : Int) ≤ (M : Int) * (e : Int) := by nlinarith
+    nlinarith
+
+theorem sext_interleave (n : Nat) (L : List (List Vec)) (hn : 0 < n) (hlen : ∀ p ∈ L, p.length = n)
+    (A : Int) (j : Nat) (hj : j < L.length) :
+    sext (interleave n L) (A * (L.length : Int) + (j : Int)) = sext ((L[j]?).getD []) A := by
+  have he : 0 < L.length := by omega
+  have hpj : ((L[j]?).getD []).length = n := by
+    rw [List.getElem?_eq_getElem hj]; exact hlen _ (List.getElem_mem hj)
+  have hmod := mul_add_emod A (2 * n) L.length j (by omega) he hj
+  have h0 := Int.emod_nonneg A (show ((2 * n : Nat) : Int) ≠ 0 by omega)
+  have h1 := Int.emod_lt_of_pos A (show (0 : Int) < ((2 * n : Nat) : Int) by omega)
+  unfold sext
+  rw [interleave_length, hpj]
+  simp only []
+  have hcast : (2 : Int) * ((n * L.length : Nat) : Int) = ((2 * n : Nat) : Int) * (L.length : Int) := by push_cast; ring
+  have hcast2 : (2 : Int) * (n : Int) = ((2 * n : Nat) : Int) := by push_cast; ring
+  rw [hcast, hmod, hcast2]
+  obtain ⟨a, ha⟩ : ∃ a : Nat, A % ((2 * n : Nat) : Int) = (a : Int) := ⟨(A % ((2 * n : Nat) : Int)).toNat, by omega⟩
+  rw [ha]
+  have ha2 : a < 2 * n := by omega
+  have hr : ((a : Int) * (L.length : Int) + (j : Int)).toNat = a * L.length + j := by
+    have : (a : Int) * (L.length : Int) + (j : Int) = ((a * L.length + j : Nat) : Int) := by push_cast; ring
+    rw [this]; exact Int.toNat_natCast _
+  rw [hr]
+  simp only [Int.toNat_natCast]
+  by_cases hlt : a < n
+  · have h3 : a * L.length + j < n * L.length := by
+      have : (a + 1) * L.length ≤ n * L.length := Nat.mul_le_mul_right _ (by omega)
+      rw [Nat.succ_mul] at this; omega
+    rw [if_pos h3, if_pos hlt, interleave_get n L a j hlt hj]
+    simp
+  · have h3 : ¬ (a * L.length + j < n * L.length) := by
+      have : n * L.length ≤ a * L.length := Nat.mul_le_mul_right _ (by omega)
+      omega
+    rw [if_neg h3, if_neg hlt]
+    have h4 : a * L.length + j - n * L.length = (a - n) * L.length + j := by
+      rw [Nat.sub_mul]
+      have : n * L.length ≤ a * L.length := Nat.mul_le_mul_right _ (by omega)
+      omega
+    rw [h4, interleave_get n L (a - n) j (by omega) hj]
+    simp
+
+theorem sext_congr (a : List Vec) (m m' : Int) (h : m % (2 * (a.length : Int)) = m' % (2 * (a.length : Int))) :
+    sext a m = sext a m' := by
+  unfold sext; simp only [h]
+
+theorem rotateRight_get {α : Type} (m : Nat) (l : List α) (hm : m ≤ l.length) (i : Nat) (hi : i < l.length) :
+    (rotateRight m l)[i]? = if i < m then l[l.length - m + i]? else l[i - m]? := by
+  unfold rotateRight
+  by_cases h : i < m
+  · rw [if_pos h, List.getElem?_append_left (by simp; omega), List.getElem?_drop]
+  · rw [if_neg h, List.getElem?_append_right (by simp; omega)]
+    simp only [List.length_drop]
+    rw [List.getElem?_take]
+    have e : i - (l.length - (l.length - m)) = i - m := by omega
+    rw [e, if_pos (by omega)]
+
+/-- the polynomials of `lookup_table_rotate(k)`: polynomial `i` is `X^{k_hi+1}`·(polynomial `ext-k_lo+i`) for
+`i < k_lo` and `X^{k_hi}`·(polynomial `i-k_lo`) otherwise, `k_pos = k mod 2·N·ext = k_hi·ext + k_lo`. -/
+theorem lutRotate_get (n : Nat) (k : Int) (L : List (List Vec)) (he : 0 < L.length)
+    (hd2 : 2 * ((n * L.length : Nat) : Int) < 2 ^ 62) (hk1 : -(2 * ((n * L.length : Nat) : Int)) ≤ k)
+    (hk2 : k + 2 * ((n * L.length : Nat) : Int) < 2 ^ 63) (hn : 0 < n) (i : Nat) (hi : i < L.length) :
+    (lutRotate n k L)[i]? =
+      (let κ := ((k + 2 * ((n * L.length : Nat) : Int)) % (2 * ((n * L.length : Nat) : Int))).toNat
+       if i < κ % L.length then (L[L.length - κ % L.length + i]?).map (rotate ((κ / L.length : Nat) + 1 : Int))
+       else (L[i - κ % L.length]?).map (rotate ((κ / L.length : Nat) : Int))) := by
+  have hT : ((2 * n * L.length : Nat) : Int) = 2 * ((n * L.length : Nat) : Int) := by push_cast; ring
+  have hM : (0:Int) < 2 * ((n * L.length : Nat) : Int) := by
+    have : 0 < n * L.length := Nat.mul_pos hn he
+    omega
+  generalize hD : 2 * ((n * L.length : Nat) : Int) = D at *
+  have h2 := Int.emod_nonneg (k + D) (ne_of_gt hM)
+  have h3 := Int.emod_lt_of_pos (k + D) hM
+  have e1 : w64 (k + D) = k + D := by unfold w64; omega
+  have e2 : Int.tmod (k + D) D = (k + D) % D := Int.tmod_eq_emod_of_nonneg (by omega)
+  have e3 : (k + D) % D % 2 ^ 64 = (k + D) % D := Int.emod_eq_of_lt h2 (by omega)
+  unfold lutRotate
+  simp only [hT, e1, e2, e3]
+  generalize hκ : ((k + D) % D).toNat = κ
+  have hκb : (κ : Int) < 2 ^ 62 := by omega
+  have hdiv : κ / L.length ≤ κ := Nat.div_le_self _ _
+  have hlo : κ % L.length < L.length := Nat.mod_lt _ he
+  have hq0 : (0:Int) ≤ ((κ / L.length : Nat) : Int) := Int.natCast_nonneg _
+  have hq1 : ((κ / L.length : Nat) : Int) ≤ (κ : Int) := by exact_mod_cast hdiv
+  have w0 : w64 ((κ / L.length : Nat) : Int) = ((κ / L.length : Nat) : Int) := by
+    generalize ((κ / L.length : Nat) : Int) = q at *
+    unfold w64; omega
+  have w1 : w64 (((κ / L.length : Nat) : Int) + 1) = ((κ / L.length : Nat) : Int) + 1 := by
+    generalize ((κ / L.length : Nat) : Int) = q at *
+    unfold w64; omega
+  rw [w0, w1]
+  rw [rotateRight_get _ _ (by simp; omega) i (by simp; exact hi)]
+  simp only [List.length_mapIdx, List.getElem?_mapIdx]
+  by_cases h : i < κ % L.length
+  · rw [if_pos h, if_pos h]
+    have : ¬ (L.length - κ % L.length + i < L.length - κ % L.length) := by omega
+    cases L[L.length - κ % L.length + i]? <;> simp [this]
+  · rw [if_neg h, if_neg h]
+    have : i - κ % L.length < L.length - κ % L.length := by omega
+    cases L[i - κ % L.length]? <;> simp [this]
+
+theorem lutRotate_length (n : Nat) (k : Int) (L : List (List Vec)) (he : 0 < L.length) : (lutRotate n k L).length = L.length := by
+  unfold lutRotate rotateRight
+  simp only [List.length_append, List.length_drop, List.length_take, List.length_mapIdx]
+  have : (Int.tmod (w64 (k + ((2 * n * L.length : Nat) : Int))) ((2 * n * L.length : Nat) : Int) % 2 ^ 64).toNat % L.length ≤ L.length := by
+    exact Nat.le_of_lt (Nat.mod_lt _ he)
+  omega
+
+theorem interleave_inRange (n : Nat) (L : List (List Vec)) (hr : ∀ p ∈ L, InRange p) : InRange (interleave n L) := by
+  intro v hv
+  simp only [interleave, List.mem_map, List.mem_range] at hv
+  obtain ⟨y, _, rfl⟩ := hv
+  cases h1 : L[y % L.length]? with
+  | none => simp
+  | some p =>
+    simp only [Option.getD_some]
+    cases h2 : p[y / L.length]? with
+    | none => simp
+    | some w =>
+      simp only [Option.getD_some]
+      exact hr p (List.mem_of_getElem? h1) w (List.mem_of_getElem? h2)
+
+/-- **interleaving lemma**: `lookup_table_rotate(k)` on the `ext` polynomials is multiplication by `Y^k` of the
+interleaved degree-`N·ext` polynomial. -/
+theorem lutRotate_interleave (n : Nat) (k : Int) (L : List (List Vec)) (he : 0 < L.length) (hn : 0 < n)
+    (hlen : ∀ p ∈ L, p.length = n) (hr : ∀ p ∈ L, InRange p)
+    (hd2 : 2 * ((n * L.length : Nat) : Int) < 2 ^ 62) (hk1 : -(2 * ((n * L.length : Nat) : Int)) ≤ k)
+    (hk2 : k + 2 * ((n * L.length : Nat) : Int) < 2 ^ 63) :
+    interleave n (lutRotate n k L) = rotate k (interleave n L) := by
+  have hLl := lutRotate_length n k L he
+  have hI : (interleave n L).length = n * L.length := interleave_length n L
+  have hIr := interleave_inRange n L hr
+  have hdom : 0 < n * L.length := Nat.mul_pos hn he
+  have hM : (0:Int) < 2 * ((n * L.length : Nat) : Int) := by omega
+  apply List.ext_getElem?
+  intro y
+  by_cases hy : y < n * L.length
+  · obtain ⟨x, i, hx, hi, rfl⟩ : ∃ x i, x < n ∧ i < L.length ∧ y = x * L.length + i :=
+      ⟨y / L.length, y % L.length, Nat.div_lt_of_lt_mul (by rw [Nat.mul_comm]; exact hy), Nat.mod_lt _ he,
+        by rw [Nat.mul_comm]; exact (Nat.div_add_mod y L.length).symm⟩
+    -- right-hand side
+    rw [getElem?_eq_sext (rotate k (interleave n L)) _ (by rw [rotate_length, hI]; exact hy)]
+    rw [sext_rotate k _ (by rw [hI]; exact hdom) (fun v hv => negV_negV v (hIr v hv))]
+    -- left-hand side
+    have hg := lutRotate_get n k L he hd2 hk1 hk2 hn i hi
+    simp only at hg
+    generalize hκ : ((k + 2 * ((n * L.length : Nat) : Int)) % (2 * ((n * L.length : Nat) : Int))).toNat = κ at hg
+    have hκk : (κ : Int) % (2 * ((n * L.length : Nat) : Int)) = k % (2 * ((n * L.length : Nat) : Int)) := by
+      have h2 := Int.emod_nonneg (k + 2 * ((n * L.length : Nat) : Int)) (ne_of_gt hM)
+      rw [← hκ, Int.toNat_of_nonneg h2, Int.emod_emod_of_dvd _ (dvd_refl _)]
+      exact Int.add_emod_right k _
+    have hκd : κ = κ / L.length * L.length + κ % L.length := by
+      rw [Nat.mul_comm]; exact (Nat.div_add_mod κ L.length).symm
+    have hlo : κ % L.length < L.length := Nat.mod_lt _ he
+    have key : ∀ (j : Nat) (r : Int), j < L.length → (lutRotate n k L)[i]? = some (rotate r ((L[j]?).getD [])) →
+        ((x : Int) - r) * (L.length : Int) + (j : Int) = ((x * L.length + i : Nat) : Int) - (κ : Int) →
+        (interleave n (lutRotate n k L))[x * L.length + i]? = some (sext (interleave n L) (((x * L.length + i : Nat) : Int) - k)) := by
+      intro j r hj hgi hidx
+      have hlenj : ((L[j]?).getD []).length = n := by
+        rw [List.getElem?_eq_getElem hj]; exact hlen _ (List.getElem_mem hj)
+      have hrj : InRange ((L[j]?).getD []) := by
+        rw [List.getElem?_eq_getElem hj]; exact hr _ (List.getElem_mem hj)
+      have hi' : i < (lutRotate n k L).length := by rw [hLl]; exact hi
+      have := interleave_get n (lutRotate n k L) x i hx hi'
+      rw [hLl] at this
+      rw [this, hgi]
+      simp only [Option.getD_some]
+      rw [getElem?_eq_sext _ x (by rw [rotate_length, hlenj]; exact hx)]
+      simp only [Option.getD_some]
+      rw [sext_rotate r _ (by rw [hlenj]; exact hn) (fun v hv => negV_negV v (hrj v hv))]
+      rw [← sext_interleave n L hn hlen ((x : Int) - r) j hj, hidx]
+      congr 1
+      apply sext_congr
+      rw [hI]
+      rw [Int.sub_emod, hκk, ← Int.sub_emod]
+    by_cases h : i < κ % L.length
+    · rw [if_pos h] at hg
+      have hj : L.length - κ % L.length + i < L.length := by omega
+      rw [List.getElem?_eq_getElem hj] at hg
+      simp only [Option.map_some] at hg
+      apply key (L.length - κ % L.length + i) (((κ / L.length : Nat) : Int) + 1) hj
+      · rw [hg, List.getElem?_eq_getElem hj]; rfl
+      · have e1 : ((L.length - κ % L.length + i : Nat) : Int) = (L.length : Int) - ((κ % L.length : Nat) : Int) + (i : Int) := by
+          omega
+        rw [e1]
+        have e2 : (κ : Int) = ((κ / L.length : Nat) : Int) * (L.length : Int) + ((κ % L.length : Nat) : Int) := by
+          exact_mod_cast hκd
+        rw [e2]; push_cast; ring
+    · rw [if_neg h] at hg
+      have hj : i - κ % L.length < L.length := by omega
+      rw [List.getElem?_eq_getElem hj] at hg
+      simp only [Option.map_some] at hg
+      apply key (i - κ % L.length) ((κ / L.length : Nat) : Int) hj
+      · rw [hg, List.getElem?_eq_getElem hj]; rfl
+      · have e1 : ((i - κ % L.length : Nat) : Int) = (i : Int) - ((κ % L.length : Nat) : Int) := by omega
+        rw [e1]
+        have e2 : (κ : Int) = ((κ / L.length : Nat) : Int) * (L.length : Int) + ((κ % L.length : Nat) : Int) := by
+          exact_mod_cast hκd
+        rw [e2]; push_cast; ring
+  · rw [List.getElem?_eq_none (by rw [interleave_length, hLl]; omega),
+        List.getElem?_eq_none (by rw [rotate_length, hI]; omega)]
+
+
+theorem stepBy_get {α : Type} (gap : Nat) (hg : 1 ≤ gap) : ∀ (fuel : Nat) (l : List α) (x : Nat), l.length ≤ fuel →
+    (stepBy gap fuel l)[x]? = l[x * gap]? := by
+  intro fuel
+  induction fuel with
+  | zero => intro l x h; have : l = [] := List.eq_nil_of_length_eq_zero (by omega); subst this; simp [stepBy]
+  | succ f ih =>
+    intro l x h
+    cases l with
+    | nil => simp [stepBy]
+    | cons a t =>
+      cases x with
+      | zero => simp [stepBy]
+      | succ x' =>
+        simp only [stepBy, List.getElem?_cons_succ]
+        rw [ih _ _ (by simp at h ⊢; omega)]
+        rw [List.getElem?_drop]
+        have : (x' + 1) * gap = (gap - 1 + x' * gap) + 1 := by rw [Nat.succ_mul]; omega
+        rw [this, List.getElem?_cons_succ]
+
+theorem iterRotate (F : List Vec) (hF : InRange F) : ∀ i : Nat,
+    (List.range i).foldl (fun p _ => rotate (-1) p) F = rotate (-(i : Int)) F := by
+  intro i
+  induction i with
+  | zero =>
+    simp only [List.range_zero, List.foldl_nil]
+    by_cases h0 : F.length = 0
+    · have : F = [] := List.eq_nil_of_length_eq_zero h0
+      subst this; simp [rotate]
+    · apply List.ext_getElem?
+      intro j
+      by_cases hj : j < F.length
+      · rw [getElem?_eq_sext F j hj, getElem?_eq_sext _ j (by rw [rotate_length]; exact hj),
+          sext_rotate _ _ (by omega) (fun v hv => negV_negV v (hF v hv))]
+        simp
+      · rw [List.getElem?_eq_none (by omega), List.getElem?_eq_none (by rw [rotate_length]; omega)]
+  | succ i ih =>
+    rw [List.range_succ, List.foldl_append, ih]
+    simp only [List.foldl_cons, List.foldl_nil]
+    rw [rotate_rotate _ _ _ hF]
+    congr 1; push_cast; ring
+
+theorem switchDown_rotate_get (n ext : Nat) (F : List Vec) (hF : InRange F) (hlen : F.length = n * ext)
+    (i x : Nat) (hi : i < ext) (hx : x < n) :
+    (switchDown ext n (rotate (-(i : Int)) F))[x]? = F[x * ext + i]? := by
+  have hlt : x * ext + i < n * ext := by
+    have : (x + 1) * ext ≤ n * ext := Nat.mul_le_mul_right _ (by omega)
+    rw [Nat.succ_mul] at this; omega
+  have hdom : 0 < F.length := by omega
+  unfold switchDown
+  rw [List.getElem?_take, if_pos hx, stepBy_get ext (by omega) _ _ _ (Nat.le_refl _)]
+  have hxe : x * ext < (rotate (-(i : Int)) F).length := by rw [rotate_length, hlen]; omega
+  rw [getElem?_eq_sext _ _ hxe, sext_rotate _ _ hdom (fun v hv => negV_negV v (hF v hv)),
+    getElem?_eq_sext F _ (by rw [hlen]; exact hlt)]
+  congr 2
+  push_cast; ring
+
+theorem interleave_split (n ext : Nat) (hext : 0 < ext) (F : List Vec) (hF : InRange F) (hlen : F.length = n * ext)
+    (g : Vec → Vec) :
+    interleave n ((List.range ext).map fun i =>
+      (switchDown ext n ((List.range i).foldl (fun p _ => rotate (-1) p) F)).map g) = F.map g := by
+  apply List.ext_getElem?
+  intro y
+  have hLl : ((List.range ext).map fun i =>
+      (switchDown ext n ((List.range i).foldl (fun p _ => rotate (-1) p) F)).map g).length = ext := by simp
+  by_cases hy : y < n * ext
+  · obtain ⟨x, i, hx, hi, rfl⟩ : ∃ x i, x < n ∧ i < ext ∧ y = x * ext + i :=
+      ⟨y / ext, y % ext, Nat.div_lt_of_lt_mul (by rw [Nat.mul_comm]; exact hy), Nat.mod_lt _ hext,
+        by rw [Nat.mul_comm]; exact (Nat.div_add_mod y ext).symm⟩
+    have := interleave_get n _ x i hx (by rw [hLl]; exact hi)
+    rw [hLl] at this
+    rw [this, List.getElem?_map, List.getElem?_range hi]
+    simp only [Option.map_some, Option.getD_some, List.getElem?_map]
+    rw [iterRotate F hF i, switchDown_rotate_get n ext F hF hlen i x hi hx]
+    rw [List.getElem?_eq_getElem (by rw [hlen]; exact hy)]
+    simp
+  · rw [List.getElem?_eq_none (by rw [interleave_length, hLl]; omega),
+        List.getElem?_eq_none (by rw [List.length_map, hlen]; omega)]
+
+
+theorem sext_tableF (b size limbs step : Nat) (scale : Int) (f : List Int) (hs : 0 < step) (hl : 1 ≤ f.length) (m : Int) :
+    some (sext (tableF b size limbs step scale f) m) =
+      (let dom := f.length * step
+       let u := (m % (2 * (dom : Int))).toNat
+       (f[(u % dom) / step]?).map fun fi =>
+         let v := enc b size limbs (w64 (fi * scale))
+         if u < dom then v else negV v) := by
+  have hdom : 0 < f.length * step := Nat.mul_pos (by omega) hs
+  have hM : (0 : Int) < 2 * ((f.length * step : Nat) : Int) := by omega
+  have h0 := Int.emod_nonneg m (ne_of_gt hM)
+  have h1 := Int.emod_lt_of_pos m hM
+  unfold sext
+  simp only [tableF_length]
+  generalize hu : (m % (2 * ((f.length * step : Nat) : Int))).toNat = u
+  have hu2 : u < 2 * (f.length * step) := by omega
+  by_cases hlt : u < f.length * step
+  · have hmod : u % (f.length * step) = u := Nat.mod_eq_of_lt hlt
+    rw [if_pos hlt, hmod, tableF_get _ _ _ _ _ f hs u hlt]
+    have hidx : u / step < f.length := Nat.div_lt_of_lt_mul (by rw [Nat.mul_comm]; exact hlt)
+    rw [List.getElem?_eq_getElem hidx]
+    simp [hlt]
+  · have hmod : u % (f.length * step) = u - f.length * step := by
+      have : u = (u - f.length * step) + f.length * step := by omega
+      conv => lhs; rw [this]
+      rw [Nat.add_mod_right]; exact Nat.mod_eq_of_lt (by omega)
+    rw [if_neg hlt, hmod, tableF_get _ _ _ _ _ f hs (u - f.length * step) (by omega)]
+    have hidx : (u - f.length * step) / step < f.length := Nat.div_lt_of_lt_mul (by have := Nat.mul_comm step f.length; omega)
+    rw [List.getElem?_eq_getElem hidx]
+    simp [hlt]
+
+theorem lutRotate_mem (n : Nat) (k : Int) (L : List (List Vec)) (p : List Vec) (hp : p ∈ lutRotate n k L) :
+    ∃ r q, q ∈ L ∧ p = rotate r q := by
+  unfold lutRotate rotateRight at hp
+  simp only at hp
+  generalize hm : List.mapIdx _ L = M at hp
+  have hp' : p ∈ M := by
+    rcases List.mem_append.1 hp with h | h
+    · exact List.mem_of_mem_drop h
+    · exact List.mem_of_mem_take h
+  rw [← hm, List.mem_mapIdx] at hp'
+  obtain ⟨i, hi, hpe⟩ := hp'
+  split at hpe
+  · exact ⟨_, _, List.getElem_mem hi, hpe.symm⟩
+  · exact ⟨_, _, List.getElem_mem hi, hpe.symm⟩
+
+
+/-- the un-normalised full-domain table of `lookup_table_set` -/
+def lutFullOf (size limbs step : Nat) (scale : Int) (f : List Int) : List Vec :=
+  f.flatMap fun fi => List.replicate step ((List.range size).map fun j => if j = limbs - 1 then w64 (fi * scale) else 0)
+
+theorem lutSet_extN (n ext b kLut k step : Nat) (f : List Int) (hpow : isPow2 ext = true) (hext : 1 < ext) (hb : 1 ≤ b)
+    (hlen : 1 ≤ f.length) (hfn : f.length ≤ n) (hdiv : n * ext = f.length * step)
+    (hbits : maxBitSize f + k % b < 64) (hl1 : 1 ≤ (k + b - 1) / b) (hl2 : (k + b - 1) / b ≤ (kLut + b - 1) / b) :
+    lutSet n ext b kLut f k = .ok
+      { data := lutRotate n (-((step / 2 : Nat) : Int))
+          ((List.range ext).map fun i =>
+            (switchDown ext n ((List.range i).foldl (fun p _ => rotate (-1) p)
+              (lutFullOf ((kLut + b - 1) / b) ((k + b - 1) / b) step (if k % b ≠ 0 then 2 ^ (b - k % b) else 1) f))).map (normVec b)),
+        drift := step / 2 } := by
+  have hstep : 0 < step := by
+    rcases Nat.eq_zero_or_pos step with h | h
+    · subst h; have : 0 < n * ext := Nat.mul_pos (by omega) (by omega); omega
+    · exact h
+  have hfn' : ¬ (f.length > n) := by omega
+  have hstepeq : (n * ext + f.length / 2) / f.length = step := by
+    rw [hdiv, Nat.mul_add_div (by omega), Nat.div_eq_of_lt (a := f.length / 2) (by omega)]
+    rfl
+  have hb0 : b ≠ 0 := by omega
+  have hl0 : (k + b - 1) / b ≠ 0 := by omega
+  have hf0 : f.length ≠ 0 := by omega
+  have hbnd : ¬ (f.length * step > n * ext) := by omega
+  unfold lutSet
+  simp only [hpow, hb0, hfn', hbits, hl2, hl0, hf0, hstepeq, hbnd, if_false, Bool.not_true, Bool.false_eq_true,
+    decide_true, hext, if_true]
+  have hz : n * ext - f.length * step = 0 := by omega
+  rw [hz, List.replicate_zero, List.append_nil]
+  simp only [List.map_map]
+  rfl
+
+
+theorem lutFullOf_length (size limbs step : Nat) (scale : Int) (f : List Int) :
+    (lutFullOf size limbs step scale f).length = f.length * step := by
+  unfold lutFullOf
+  rw [List.length_flatMap]
+  simp [List.length_replicate, List.map_const', List.sum_replicate]
+
+theorem lutFullOf_inRange (size limbs step : Nat) (scale : Int) (f : List Int) : InRange (lutFullOf size limbs step scale f) := by
+  intro v hv x hx
+  simp only [lutFullOf, List.mem_flatMap, List.mem_replicate] at hv
+  obtain ⟨fi, _, _, rfl⟩ := hv
+  simp only [List.mem_map, List.mem_range] at hx
+  obtain ⟨j, _, rfl⟩ := hx
+  split
+  · exact w64_range _
+  · constructor <;> norm_num
+
+theorem lutFullOf_norm (b size limbs step : Nat) (scale : Int) (f : List Int) :
+    (lutFullOf size limbs step scale f).map (normVec b) = tableF b size limbs step scale f := by
+  unfold lutFullOf tableF
+  rw [List.map_flatMap]
+  apply List.flatMap_congr
+  intro fi _
+  simp [enc]
+
+theorem switchDown_length (n ext : Nat) (hext : 1 ≤ ext) (G : List Vec) (hG : G.length = n * ext) :
+    (switchDown ext n G).length = n := by
+  unfold switchDown
+  rw [List.length_take]
+  rcases Nat.eq_zero_or_pos n with h0 | hpos
+  · subst h0; simp
+  · have hlast : (n - 1) * ext < G.length := by
+      rw [hG]
+      have : (n - 1 + 1) * ext = n * ext := by congr 1; omega
+      rw [Nat.succ_mul] at this; omega
+    have hs := stepBy_get ext hext G.length G (n - 1) (Nat.le_refl _)
+    rw [List.getElem?_eq_getElem hlast] at hs
+    have : n - 1 < (stepBy ext G.length G).length := by
+      by_contra hc
+      rw [List.getElem?_eq_none (by omega)] at hs
+      simp at hs
+    omega
+
+
 end Lut
